@@ -133,6 +133,15 @@ class SInt:
         a, b = (int_lean(x) for x in self.args)
         return "(%s %s %s)" % (a, "+" if self.op == "add" else "-", b)
 
+def nat_lean(v):
+    if isinstance(v, bool):
+        raise Untranslatable("bool used as a position")
+    if isinstance(v, int) and v >= 0:
+        return "%d" % v
+    if isinstance(v, SInt) and v.op == "var":
+        return v.args[0]
+    raise Untranslatable("not a position: %r" % (v,))
+
 def int_lean(v):
     if isinstance(v, bool):
         raise Untranslatable("bool used as int")
@@ -233,6 +242,34 @@ class SOptColl:
 
     def __init__(self, lean):
         self.lean_name = lean
+
+
+class SPath:
+    """a path: a tuple of child positions of unknown length (a `List Nat` expression of the generated function)"""
+
+    def __init__(self, lean):
+        self.lean_text = lean
+
+    def lean(self):
+        return self.lean_text
+
+
+class SPathSet:
+    """a set / list of paths given by the caller (a `List (List Nat)` variable): only membership is used"""
+
+    def __init__(self, lean):
+        self.lean_text = lean
+
+    def lean(self):
+        return self.lean_text
+
+
+class _LoopExit(Exception):
+    """(translation of one iteration of a `while`) the iteration is over: `again` tells whether the body ran"""
+
+    def __init__(self, again, values):
+        self.again = again
+        self.values = values
 
 
 class ReRes:
@@ -429,7 +466,7 @@ class Interp:
             return self.decide(("bool", v.lean()), ("bool", v.lean()), 2) == 0
         if isinstance(v, ReRes):
             return self.decide(("bool", v.lean_text), ("bool", v.lean_text), 2) == 0
-        if isinstance(v, SColl):
+        if isinstance(v, (SColl, SPath)):
             return self.decide(("nonempty", v.lean()), ("nonempty", v.lean()), 2) == 0
         if isinstance(v, ListObj):
             self.normalize_list(v)
@@ -1095,6 +1132,8 @@ class Interp:
                     self.loop_lazy(s, frame, k, x)
             if not broke:
                 self.exec_block(s.orelse, frame)
+        elif isinstance(s, ast.While):
+            self.exec_while(s, frame)
         elif isinstance(s, ast.Break):
             raise _Break()
         elif isinstance(s, ast.Pass):
@@ -1133,6 +1172,78 @@ class Interp:
                     raise
         else:
             raise Untranslatable("statement %s" % type(s).__name__)
+    def exec_while(self, s, frame):
+        """`while cond: body` over values of unknown size. The loop is not unrolled: its effect on the variables it
+        assigns is the function `loop` the generated definition takes as a parameter (`self.loops[i]` describes the
+        i-th loop met: the kinds of its variables); the translation of ONE iteration (test, then body) is a
+        definition of its own, made by running the same function with `self.loop_body = i`: the variables then start
+        as fresh unknowns, and the run ends after the test (false) or after the body."""
+        if s.orelse or any(isinstance(n, (ast.Break, ast.Continue, ast.Return, ast.Yield, ast.YieldFrom))
+                           for st in s.body for n in ast.walk(st)):
+            raise Untranslatable("while with else / break / continue / return / yield")
+        spec = getattr(self, "loops", None)
+        if spec is None:
+            raise Untranslatable("while loop (no loop description given)")
+        idx = self.loop_count = getattr(self, "loop_count", -1) + 1
+        if idx >= len(spec):
+            raise Untranslatable("more while loops than described")
+        names = [n for n, _ in spec[idx]]
+        written = set()
+        for st in s.body:
+            for n in ast.walk(st):
+                if isinstance(n, ast.Name) and isinstance(n.ctx, ast.Store):
+                    written.add(n.id)
+                elif isinstance(n, (ast.Attribute, ast.Subscript)) and isinstance(n.ctx, ast.Store):
+                    raise Untranslatable("a while loop that assigns to attributes / items")
+        if written != set(names):
+            raise Untranslatable("the while loop assigns %s, described: %s" % (sorted(written), sorted(names)))
+
+        def fresh_values(prefix):
+            vals = []
+            for n, kind in spec[idx]:
+                if kind == "optstr":
+                    vals.append(SOpt("%s%s" % (prefix, n), "str"))
+                elif kind == "path":
+                    vals.append(SPath("%s%s" % (prefix, n)))
+                else:
+                    raise Untranslatable("loop variable kind %s" % kind)
+            return vals
+
+        def lean_of(v, kind):
+            if kind == "optstr":
+                if v is None:
+                    return "none"
+                if isinstance(v, SOpt):
+                    return v.lean()
+                if isinstance(v, (str, SStr)):
+                    return "(some %s)" % str_lean(v)
+            elif kind == "path":
+                if isinstance(v, SPath):
+                    return v.lean()
+                if isinstance(v, ListObj) and not v.segs:
+                    return "[]"
+            raise Untranslatable("loop variable of kind %s holds %r" % (kind, v))
+
+        if getattr(self, "loop_body", None) == idx:
+            # translation of one iteration: forget the decisions taken on the way to the loop
+            self.o.choose(("loopstart",), 1)
+            self.o.cut = len(self.o.trace)
+            self.known = {}
+            for (n, _), v in zip(spec[idx], fresh_values("")):
+                frame.locals[n] = v
+            again = self.truth(self.eval(s.test, frame))
+            if again:
+                self.exec_block(s.body, frame)
+            raise _LoopExit(again, "(%s)" % ", ".join(lean_of(frame.locals[n], k) for n, k in spec[idx]))
+        entry = "(%s)" % ", ".join(lean_of(frame.locals[n], k) for n, k in spec[idx])
+        res = "(loop%d %s)" % (idx, entry)
+        proj = [".1", ".2"] if len(names) == 2 else ([""] if len(names) == 1 else None)
+        if proj is None:
+            raise Untranslatable("a while loop with more than two variables")
+        for (n, kind), pj in zip(spec[idx], proj):
+            text = "%s%s" % (res, pj)
+            frame.locals[n] = SOpt(text, "str") if kind == "optstr" else SPath(text)
+
     def loop_lazy(self, s, frame, kind, seg):
         """`for x in <segment of unknown length>: body`. The body is turned into a stage applied to every element:
         inside a generator what it yields for one element becomes the element of a new lazy segment of the
@@ -1245,6 +1356,11 @@ class Interp:
             return SInt(op, a, b)
         raise Untranslatable("arithmetic on %r, %r" % (a, b))
     def binop(self, op, a, b):
+        if isinstance(op, ast.Add) and isinstance(a, SPath) and isinstance(b, ListObj):
+            self.normalize_list(b)
+            if any(k != "elem" for k, _ in b.segs):
+                raise Untranslatable("path + a tuple of unknown length")
+            return SPath("(%s ++ [%s])" % (a.lean(), ", ".join(nat_lean(x) for _, x in b.segs)))
         if isinstance(op, ast.Add) and isinstance(a, ListObj) and isinstance(b, ListObj):
             return ListObj(list(a.segs) + list(b.segs))
         if isinstance(op, ast.Add) and isinstance(a, SColl) and isinstance(b, SColl):
@@ -1306,6 +1422,10 @@ class Interp:
                 hi = self.eval(e.slice.upper, frame) if e.slice.upper else None
                 if e.slice.step is not None:
                     raise Untranslatable("slice with a step")
+                if isinstance(o, SPath):
+                    if lo is None and hi == -1:
+                        return SPath("(%s).dropLast" % o.lean())
+                    raise Untranslatable("slice of a path other than [:-1]")
                 if isinstance(o, ListObj) and hi == -1 and (lo is None or (isinstance(lo, int) and lo >= 0)):
                     # `xs[k:-1]`: the last element is made concrete first (fork on the end of a lazy segment), then the
                     # first k
@@ -1526,8 +1646,19 @@ class Interp:
             frame.yields.segs.extend(v.segs)
             return None
         if isinstance(e, ast.JoinedStr):
-            # only ever used to build exception messages here: kept opaque
-            return "<formatted message>"
+            out = ""
+            for part in e.values:
+                if isinstance(part, ast.Constant) and isinstance(part.value, str):
+                    out = str_cat(out, part.value)
+                    continue
+                if isinstance(part, ast.FormattedValue) and part.conversion == -1 and part.format_spec is None:
+                    v = self.eval(part.value, frame)
+                    if isinstance(v, (str, SStr)):
+                        out = str_cat(out, v)
+                        continue
+                # (otherwise only ever used to build exception messages here: kept opaque)
+                return "<formatted message>"
+            return out
         if isinstance(e, ast.IfExp):
             return self.eval(e.body if self.truth(self.eval(e.test, frame)) else e.orelse, frame)
         raise Untranslatable("expression %s" % type(e).__name__)
@@ -1604,6 +1735,9 @@ class Interp:
                 if self.known[key][0] == 1:
                     raise PyRaise(TypeError)
                 b = SColl(self.known[key][1])
+            if isinstance(b, SPathSet) and isinstance(a, SPath):
+                t = "((%s).contains %s)" % (b.lean(), a.lean())
+                return SBool("(!%s)" % t) if neg else SBool(t)
             if isinstance(b, SColl) and isinstance(a, (str, SStr)):
                 t = "((%s).contains %s)" % (b.lean(), str_lean(a))
                 return SBool("(!%s)" % t) if neg else SBool(t)
@@ -2583,4 +2717,101 @@ def translate_nesting(C):
                     build_tree(paths, 0, 1), None, len(paths)))
     except Untranslatable as e:
         out.append(("search_field_prefix", None, "(List Str × Bool)", None, str(e), 0))
+    return out
+
+
+# ---------------------------------------------------------------------------------------------
+# HTMLMarker.mark_node (naming.py): the class of a node, the nearest classified ancestor (a while loop), the tags
+# ---------------------------------------------------------------------------------------------
+
+MARK_LOOPS = [[("parent_class", "optstr"), ("parent_path", "path")]]
+
+
+def translate_marker(N):
+    """[(lean name, params, result type, body | None, error | None, paths)]:
+    * `mark_node`: `HTMLMarker.mark_node(node, path, paths_ok, paths_ko, parcimonious)` -> the layout of the node it
+      returns (it must return the node it was given); the effect of its `while` loop on (parent_class, parent_path) is
+      the parameter `loop0`;
+    * `mark_node_loop0`: ONE iteration of that loop from any state: `none` when the test fails, `some state'` after
+      the body."""
+    out = []
+
+    def marker(it):
+        me = Obj(N.HTMLMarker, lean="@self")
+        me.attrs["ok_class"] = SStr.var("okClass")
+        me.attrs["ko_class"] = SStr.var("koClass")
+        me.attrs["element"] = SStr.var("element")
+        return me
+
+    def call(it, node):
+        me = marker(it)
+        f = it.getattr_(me, "mark_node", None)
+        return it.call(f, [node, SPath("path"), SPathSet("ok"), SPathSet("ko"), SBool("parci")], {}, None)
+
+    base = ["(okClass koClass element : Str)", "(ok ko : List (List Nat))"]
+
+    def run_main(oracle):
+        it = Interp(oracle)
+        it.loops = MARK_LOOPS
+        node = Obj(None, lean="node", lay="l")
+        try:
+            res = call(it, node)
+        except PyRaise as e:
+            return emit_raise(e)
+        if res is not node:
+            raise Untranslatable("mark_node does not return the node it was given")
+        extra = sorted(node.written - set(LAY_ATTRS))
+        if extra:
+            raise Untranslatable("mark_node writes %s" % extra)
+        return "Except.ok %s" % emit_lay(it, node)
+    try:
+        paths = explore(run_main)
+        out.append(("mark_node", ["(loop0 : Option Str × List Nat → Option Str × List Nat)"] + base +
+                    ["(path : List Nat)", "(parci : Bool)", "(l : Lay)"], "Lay", build_tree(paths, 0, 1), None, len(paths)))
+    except Untranslatable as e:
+        out.append(("mark_node", None, "Lay", None, str(e), 0))
+
+    def run_loop(oracle):
+        it = Interp(oracle)
+        it.loops = MARK_LOOPS
+        it.loop_body = 0
+        node = Obj(None, lean="node", lay="l")
+        try:
+            call(it, node)
+        except _LoopExit as e:
+            return ("loop", "Except.ok (some %s)" % e.values if e.again else "Except.ok none")
+        except PyRaise as e:
+            if getattr(oracle, "cut", None) is None:
+                return ("before", None)
+            return ("loop", emit_raise(e))
+        return ("before", None)
+    try:
+        raw = explore(run_loop)
+        seen = {}
+        for trace, res in raw:
+            # explore() keeps the oracle's trace only; the cut position is the number of decisions before the loop:
+            # recompute it by re-running (cheap) -- instead the runs record it in the result
+            pass
+        paths = []
+        for trace, res in raw:
+            if res[0] != "loop":
+                continue
+            paths.append((trace, res[1]))
+        # the decisions taken before the loop are dropped: find, per path, where the loop started
+        cut_paths = {}
+        for trace, res in paths:
+            cut = next((i for i, (d, _, _) in enumerate(trace) if d[0] == "loopstart"), None)
+            if cut is None:
+                raise Untranslatable("loop start not recorded")
+            key = tuple((d, n, c) for d, n, c in trace[cut + 1:])
+            if key in cut_paths and cut_paths[key] != res:
+                raise Untranslatable("one iteration of the loop depends on what was computed before the loop")
+            cut_paths[key] = res
+        paths = [(list(k), v) for k, v in cut_paths.items()]
+        if not paths:
+            raise Untranslatable("mark_node has no while loop any more")
+        out.append(("mark_node_loop0", base + ["(parent_class : Option Str)", "(parent_path : List Nat)"],
+                    "(Option (Option Str × List Nat))", build_tree(paths, 0, 1), None, len(paths)))
+    except Untranslatable as e:
+        out.append(("mark_node_loop0", None, "(Option (Option Str × List Nat))", None, str(e), 0))
     return out
